@@ -464,12 +464,7 @@ impl Shadow {
                     let zero = [p.mark, p.trace, p.keep, p.drop, p.free].iter().all(|d| d.num == 0);
                     if zero && obs.debt_before > 0.0 && matches!(method, Method::CollectDebt | Method::CycleDebt) && obs.phase_after != CPhase::Sleeping {
                         let what = format!("{} with zero work factors and debt {} returned in phase {} (total_gc_count = {})", method.name(), obs.debt_before, obs.phase_after.name(), obs.total_after);
-                        if obs.total_after == 0 && obs.phase_after == CPhase::Sweeping {
-                            // the sweep released the arena's last allocation: debt reads 0 by definition
-                            keyed.push(Violation { property: "C09", key: "stw-returns-sweeping-when-arena-emptied", what });
-                        } else {
-                            v("C09", what);
-                        }
+                        v("C09", what);
                     }
                 }
             }
@@ -519,10 +514,7 @@ impl Shadow {
                         let rho = (f(p.mark) + f(p.trace) + f(p.keep)).max(f(p.drop) + f(p.free)).max(f(p.mark) + f(p.drop) + f(p.keep));
                         if rho < 1.0 {
                             let bound = rho * self.total_at_wake as f64 / (1.0 - rho);
-                            if (self.allocs_since_wake as f64) >= bound + 1e-9 && self.total_at_wake > 0 && obs.total_after == 0 && obs.phase_after == CPhase::Sweeping {
-                                // same corner as the stop-the-world finding: the sweep released the last allocation
-                                keyed.push(Violation { property: "C09", key: "stw-returns-sweeping-when-arena-emptied", what: format!("cycle_debt returned while Sweeping with an emptied arena after {} allocations since wake (H = {})", self.allocs_since_wake, self.total_at_wake) });
-                            } else if (self.allocs_since_wake as f64) >= bound + 1e-9 && self.total_at_wake > 0 {
+                            if (self.allocs_since_wake as f64) >= bound + 1e-9 && self.total_at_wake > 0 {
                                 v("C09", format!("cycle woke with H = {} allocations, rho = {rho}: still unfinished ({}) after cycle_debt although {} allocations were made since (bound rho*H/(1-rho) = {bound})", self.total_at_wake, obs.phase_after.name(), self.allocs_since_wake));
                             }
                         }
